@@ -252,6 +252,74 @@ func c11RoundTrip(fs framingSpec, maxLen int, quick bool) *Scenario {
 	}
 }
 
+// c11Bytes: every byte value inside records (alone, leading, trailing, doubled), for every stream framing.
+func c11Bytes(fs framingSpec) *Scenario {
+	return &Scenario{
+		Name:   fmt.Sprintf("byte values %s: every byte 0x00..0xff alone / leading / trailing / doubled in a record", fs.Name),
+		Params: map[string]any{"framing": fs.Name, "fragmentation": "no cut, every single cut, one-byte reads"},
+		Seq: func(r *SeqRun) {
+			for b := 0; b < 256; b++ {
+				if r.Expired() {
+					return
+				}
+				c := byte(b)
+				var recs [][]byte
+				switch fs.Kind {
+				case "split":
+					if c == fs.Split {
+						continue
+					}
+					recs = [][]byte{{c}, {'a', c}, {c, 'a'}, {c, c}, []byte("x")}
+				case "rawjson":
+					if b >= 0x80 {
+						continue
+					}
+					j1, _ := json.Marshal(string(rune(c)))
+					j2, _ := json.Marshal(map[string]any{string(rune(c)): []any{string(rune(c)) + "a"}})
+					recs = [][]byte{j1, j2, []byte("[1]")}
+				default:
+					recs = [][]byte{{c}, {'a', c}, {c, 'a'}, {c, c}, []byte("x")}
+				}
+				w := &bufWC{}
+				sender := fs.F(bytes.NewReader(nil), w)
+				for _, rec := range recs {
+					if err := sender.Send(append([]byte(nil), rec...)); err != nil {
+						r.Fail("C11.R1", fmt.Sprintf("%s %q", fs.Name, rec), "Send refused a legal record: "+err.Error(), "")
+					}
+				}
+				stream := append([]byte(nil), w.Bytes()...)
+				forCutSets(len(stream), 1, func(cuts []int, eof, oneByte bool) bool {
+					rd := &cutReader{data: stream, cuts: cuts, eofWithLast: eof, oneByte: oneByte}
+					ch := fs.F(rd, &bufWC{})
+					var got [][]byte
+					var last error
+					p := guarded(func() {
+						for i := 0; i < len(recs)+1; i++ {
+							rec, err := ch.Recv()
+							r.Calls(1)
+							if err != nil {
+								last = err
+								break
+							}
+							got = append(got, append([]byte(nil), rec...))
+						}
+					})
+					r.Case(fmt.Sprintf("%s/bytes/cuts%d/one%v", fs.Name, len(cuts), oneByte), true)
+					ok := p == "" && len(got) == len(recs) && last == io.EOF
+					for i := 0; ok && i < len(recs); i++ {
+						ok = bytes.Equal(got[i], recs[i])
+					}
+					if !ok {
+						r.Fail("C11.R1", reproRoundTrip(fs, recs, cuts, eof, oneByte), fmt.Sprintf("received %q then %v (panic %q), sent %q then EOF", got, last, p, recs), "")
+					}
+					return true
+				})
+			}
+			r.Sample(map[string]any{"framing": fs.Name, "records": []string{"\r", "a\r", "\ra", "\r\r", "x"}})
+		},
+	}
+}
+
 // c11Sizes: record sizes around the buffer boundaries, growing and shrinking.
 func c11Sizes(fs framingSpec, sizes []int, maxLen int) *Scenario {
 	return &Scenario{
@@ -529,6 +597,9 @@ func c11Scenarios(tier string) []*Scenario {
 			out = append(out, c11Sizes(fs, small, 3))
 			out = append(out, c11Sizes(fs, big, 3))
 		}
+	}
+	for _, fs := range framings() {
+		out = append(out, c11Bytes(fs))
 	}
 	out = append(out, c11SplitGuard(), c11DirectSeq())
 	if q {
@@ -880,7 +951,7 @@ func c12Split(fs framingSpec, maxLen int) *Scenario {
 }
 
 var hdrTokens = []string{"Content-Length: ", "content-LENGTH:", "Content-Type: ", "X-Other: q\r\n", ":", " ", "0", "2", "-1", "+2", "2x",
-	"1099511627776", "9223372036854775807", "4611686018427387904", "99999999999999999999", "a/b", "c/d", "\r\n", "\n", "xy", "\r\n\r\n", "010", "09", "0x4", "1_0"}
+	"1099511627776", "9223372036854775807", "4611686018427387904", "99999999999999999999", "a/b", "c/d", "\r\n", "\n", "xy", "\r\n\r\n", "010", "09", "0x4", "1_0", "\t", "\r"}
 
 func c12Header(fs framingSpec, first string, maxLen int) *Scenario {
 	return &Scenario{
